@@ -23,8 +23,10 @@ def setup(ctx):
 
 def _plan(tier, seed):
     if tier == "quick":
-        return [{"n_cases": 420, "hashseed": i % 2} for i in range(8)]
-    return [{"n_cases": 6000, "hashseed": i % 4} for i in range(16)]
+        return [{"n_cases": 420, "hashseed": i % 2} for i in range(8)] + \
+               [{"n_cases": 26, "params": {"sweep": 13 * i}, "hashseed": i} for i in range(2)]
+    return [{"n_cases": 6000, "hashseed": i % 4} for i in range(16)] + \
+           [{"n_cases": 104, "params": {"sweep": 13 * i}, "hashseed": i} for i in range(4)]
 
 def plan(tier, seed):
     """+ one shard running the repository's own tests under the monitors (vf/pytest_plugin.py)"""
@@ -35,9 +37,12 @@ def plan(tier, seed):
 
 
 def gen_case(rng, ctx):
-    if rng.random() < 0.03:
-        # sizes at which implementations switch strategy (64 .. 1025 elements): structured rankings and candidates
+    if "sweep" in ctx.params or rng.random() < 0.01:
+        # sizes at which implementations switch strategy (64 .. 1025 elements): structured rankings and candidates; the
+        # sweep shards walk through every size of gen.THRESHOLD_SIZES
         n = rng.choice(gen.THRESHOLD_SIZES)
+        if "sweep" in ctx.params:
+            n = gen.THRESHOLD_SIZES[(ctx.index + ctx.params["sweep"]) % len(gen.THRESHOLD_SIZES)]
         ds, base = gen.large_dataset(rng, n)
         scls, sch = gen.scheme(rng, "S1 S1 S2 S3 S15")
         kind, cand = gen.large_candidate(rng, base)
@@ -68,6 +73,7 @@ def check_large(case, ctx):
                       slim, observed=type(val).__name__, expected=expected)
         return
     ctx.count("large_candidates_scored")
+    ctx.setadd("large_sizes", case["n"])
     if len(cand) < case["n"]:
         ctx.count("large_candidates_with_ties")
     if not (isinstance(val, (int, float)) or hasattr(val, "dtype")) or float(val) != expected:
@@ -190,6 +196,9 @@ def reach(counters, tier, info):
     v = counters.get("large_candidates_scored", 0)
     out.append({"name": "candidates over 63-1025 elements scored (vectorised reference)", "observed": v, "required": 40,
                 "ok": v >= 40})
+    v = len(set(info["sets"].get("large_sizes", ())) & set(gen.THRESHOLD_SIZES))
+    out.append({"name": "distinct sizes among gen.THRESHOLD_SIZES met", "observed": v, "required": len(gen.THRESHOLD_SIZES),
+                "ok": v >= len(gen.THRESHOLD_SIZES)})
     v = counters.get("large_candidates_with_ties", 0)
     out.append({"name": "... of which with ties", "observed": v, "required": 15, "ok": v >= 15})
     v = counters.get("refusals_observed", 0)
